@@ -12,7 +12,7 @@ def c14(tier):
                 bounds='token = arbitrary string of any length; JSON/CBOR payload = havoc value of the static type with lists <= 2',
                 must_reach=('decoded', 'rejected')),
         Harness('VHarnessTokenRoundTrip', 'cashu', ['cashu/zz_verif_cashu.go'], models=('std', 'crypto', 'json'), panic_mode='obligation',
-                bounds='0..2 proofs with arbitrary amount / secret / witness / mint URL strings, id / C / e / s / r = hex of arbitrary byte strings (any length, also empty), DLEQ present or absent per proof, includeDLEQ both ways, V3 and V4',
+                bounds='0..2 proofs with arbitrary amount / secret / witness / mint URL strings, id / C / e / s / r = hex of arbitrary byte strings (any length, also empty), DLEQ present or absent per proof, includeDLEQ both ways, V3 and V4, unit = Sat or a value that is no unit (must be refused by both constructors); the decoded unit string is compared too',
                 must_reach=('round-trip', 'not-built')),
         Harness('VHarnessTokenRoundTrip3', 'cashu', ['cashu/zz_verif_cashu.go'], models=('std', 'crypto', 'json'), panic_mode='obligation',
                 bounds='as VHarnessTokenRoundTrip with exactly 3 proofs (keyset ids equal or different in every pattern, e.g. A B A)',
